@@ -140,8 +140,9 @@ impl SwiftField for Field25P {
         let bic = if lines.len() > 1 {
             parse_bic(lines[1])?
         } else {
-            // Try to extract BIC from the end (last 8 or 11 characters)
-            if input.len() > 8 {
+            // Try to extract BIC from the end (last 8 or 11 characters). A BIC is ASCII, and
+            // the byte offsets below must not fall inside a multi-byte character
+            if input.len() > 8 && input.is_ascii() {
                 let potential_bic_11 = &input[input.len().saturating_sub(11)..];
                 let potential_bic_8 = &input[input.len().saturating_sub(8)..];
 
